@@ -55,27 +55,22 @@ Theorem C05_unknown_nsp_closes : forall c p s,
   Forall (fun x => delivery x = false) (snd (s_recv c p s)).
 Proof. exact s_recv_unknown_closes. Qed.
 
-(** The client side of it: a socket should hand nothing to the wire before the server's CONNECT
-    reply.  As coded this is FALSE for a socket whose CONNECT is pending (known finding
-    emit-while-connect-pending): the packet is sent at once ... *)
-Theorem C05_client_emit_before_accept_refuted : forall c n tag ack m,
-  cs_state (get_sock m (norm_api n)) = CPend -> m_open m = true ->
-  exists p, snd (c_emit c n tag ack m) = [OSend c p] /\ p_nsp p = norm_api n /\ p_type p = PEvent.
-Proof. exact c_emit_sends_while_pending. Qed.
+(** The client side of it (repaired code): a socket hands nothing to the wire before the
+    server's CONNECT reply arrived ... *)
+Theorem C05_client_sends_nothing_before_accept : forall c n tag ack m,
+  cs_state (get_sock m (norm_api n)) <> CConn -> snd (c_emit c n tag ack m) = [].
+Proof. exact c_emit_buffers_until_connected. Qed.
 
-(** ... and the composed system then closes the whole connection: one Manager, /a connected, CONNECT
-    to /b held by a middleware, emit on /b -> /a is disconnected on both sides (witness replayed on
-    the implementation by corpus/C05/01-pending-emit.json). *)
-Theorem C05_pending_emit_disconnects_other_nsp_refuted :
+(** ... so in the composed system an emit on /b while its CONNECT is held by a middleware leaves /a
+    connected and is delivered after the accept (the scenario that closed the whole connection
+    before the repair; replayed on the implementation by corpus/C05/01-pending-emit.json). *)
+Example C05_pending_emit_keeps_other_nsp :
   let a := [47; 97] in let b := [47; 98] in
-  let obs := snd (yrun [OpConnect 0 a; OpConnect 0 b; OpCEmit 0 b 2 false] (sys0 [a; b] [b] [])) in
-  In (BOut (OLife true 0 a 2)) obs /\ In (BOut (OLife false 0 a 2)) obs /\ In (BOut (OClosed false 0)) obs.
-Proof. vm_compute. repeat split; tauto. Qed.
-
-(** Partial: a disconnected socket (no CONNECT sent, or after a disconnect) buffers what it emits. *)
-Theorem C05_client_sends_nothing_before_accept_partial : forall c n tag ack m,
-  cs_state (get_sock m (norm_api n)) = CDisc -> snd (c_emit c n tag ack m) = [].
-Proof. exact c_emit_buffers_when_disconnected. Qed.
+  let obs := snd (yrun [OpConnect 0 a; OpConnect 0 b; OpCEmit 0 b 2 false; OpRelease b true]
+                       (sys0 [a; b] [b] [])) in
+  flat_map (fun x => match x with BOut (OLife _ _ _ 2) | BOut (OClosed _ _) => [x] | _ => [] end) obs = [] /\
+  existsb (fun x => match x with BOut (OEv true 0 n _ 2) => nseqb n b | _ => false end) obs = true.
+Proof. vm_compute. split; reflexivity. Qed.
 
 (** A client is attached to a namespace only once the server has accepted its CONNECT: a
     connection's table gains a namespace only in the step in which nsp.add succeeds (middleware
